@@ -252,7 +252,7 @@ func c05OpTerm(c *c05Chain, op c05Op, sysfee int64) string {
 
 func c05IsCommitteeOp(t string) bool {
 	switch t {
-	case "setgpb", "setreg", "block", "unblock", "setfpb", "setexec", "setstor", "setattr", "role", "setvub", "setms", "wl", "wlrm":
+	case "setgpb", "setreg", "block", "unblock", "setfpb", "setexec", "setstor", "setattr", "role", "setvub", "setms", "wl", "wlrm", "set2":
 		return true
 	}
 	return false
@@ -335,6 +335,13 @@ func c05TxTerms(c *c05Chain, ops []c05Op, b *c05BlockRec) string {
 		} else if t.Res == 0 {
 			res = "(Some false)"
 		}
+		if op.T == "set2" && t.Halt {
+			// two updates of one setting in one transaction = two model transactions, the second without fees
+			_, sub := c05Set2(op)
+			xs = append(xs, fmt.Sprintf("mkTx %s %d %d %s %s true None", c05N(t.Sender), tx.SystemFee, tx.NetworkFee, csig, c05OpTerm(c, sub[0], tx.SystemFee)),
+				fmt.Sprintf("mkTx %s 0 0 %s %s true None", c05N(t.Sender), csig, c05OpTerm(c, sub[1], tx.SystemFee)))
+			continue
+		}
 		if nas := tx.GetAttributes(transaction.NotaryAssistedT); len(nas) != 0 {
 			// NotaryAssisted: (NKeys, payer); the payer is the second signer when the Notary contract is the sender
 			payer := t.Sender
@@ -396,7 +403,14 @@ func c01CoqCase(c *c05Chain, in c01Input, blocks []*c05BlockRec, obs []*c01Obs) 
 	bs := make([]string, len(blocks))
 	for i, b := range blocks {
 		o := obs[i]
-		pol := []string{fmt.Sprint(o.Policy[0]), fmt.Sprint(o.Policy[1]), fmt.Sprint(o.Policy[2])}
+		pol := []string{fmt.Sprint(o.Policy[0]), fmt.Sprint(o.Policy[1]), fmt.Sprint(o.Policy[2]), fmt.Sprint(o.GasPerBlock), fmt.Sprint(o.RegPrice)}
+		if b.Dump != nil { // the stored gas-per-block records (index, value), ascending
+			gpb := append([]c05KV{}, b.Dump.GasPerBlock...)
+			sort.Slice(gpb, func(x, y int) bool { return gpb[x].K < gpb[y].K })
+			for _, kv := range gpb {
+				pol = append(pol, fmt.Sprint(kv.K), c05ZS(kv.V))
+			}
+		}
 		blocked := append([]int{}, o.Blocked...)
 		sort.Ints(blocked)
 		type wf struct{ a, f int64 }
